@@ -4,8 +4,7 @@
    (a seed is secret, birthday, features; built from SpecDefs only). *)
 From PS Require Import Base PackDefs ApiDefs SpecDefs SpecApi PackProofs PackTheorems ApiLemmas RefineProofs
   ApiTheorems TraceProofs FrameProofs.
-From PS Require Import GFProofs CTiePack.
-From PS.Gen Require CFuns.
+From PS Require Import GFProofs.
 From PS.Gen Require Import Langs.
 Local Open Scope N_scope.
 
